@@ -57,12 +57,14 @@ partial def pSpaceX : P (SpaceX Float)
     match r with
     | "u" :: r => do
       let (inner, r) ← pSpace r
-      pure (.spacetime vmax tw false 0 0 inner, r)
+      let sx ← SpaceX.mkSpacetime? vmax tw false 0 0 inner      -- the constructor refuses a time weight outside [0, 1]
+      pure (sx, r)
     | "b" :: r => do
       let (lo, r) ← pFloat r
       let (hi, r) ← pFloat r
       let (inner, r) ← pSpace r
-      pure (.spacetime vmax tw true lo hi inner, r)
+      let sx ← SpaceX.mkSpacetime? vmax tw true lo hi inner
+      pure (sx, r)
     | _ => none
   | "cforest" :: r => do let (s, r) ← pSpaceX r; pure (.cforest s, r)
   | k :: r =>
@@ -117,8 +119,8 @@ partial def nodeAtX : List Nat → SpaceX Float → Option (Space Float)
   | p, .base s => nodeAt p s
   | 0 :: p, .constrained amb => nodeAt p amb
   | 0 :: p, .cforest s => nodeAtX p s
-  | 0 :: p, .spacetime _ _ _ _ _ inner => nodeAt p inner
-  | [], .spacetime _ tw b lo hi inner => some (.ccons (1.0 - tw) inner (.ccons tw (.time b lo hi) .cnil))
+  | 0 :: p, .spacetime _ _ _ _ _ _ inner => nodeAt p inner
+  | [], .spacetime _ w0 w1 b lo hi inner => some (.ccons w0 inner (.ccons w1 (.time b lo hi) .cnil))
   | _, _ => none
 where
   nodeAt : List Nat → Space Float → Option (Space Float)
@@ -142,12 +144,28 @@ partial def modAtX (f : Space Float → Option (Space Float)) : List Nat → Spa
   | p, .base s => (modAt f p s).map .base
   | 0 :: p, .constrained amb => (modAt f p amb).map .constrained
   | 0 :: p, .cforest s => (modAtX f p s).map .cforest
-  | 0 :: p, .spacetime vmax tw b lo hi inner => (modAt f p inner).map (fun i' => .spacetime vmax tw b lo hi i')
-  | [1], .spacetime vmax tw b lo hi inner =>
+  | 0 :: p, .spacetime vmax w0 w1 b lo hi inner => (modAt f p inner).map (fun i' => .spacetime vmax w0 w1 b lo hi i')
+  | [1], .spacetime vmax w0 w1 b lo hi inner =>
     match f (.time b lo hi) with
-    | some (.time b' lo' hi') => some (.spacetime vmax tw b' lo' hi' inner)
+    | some (.time b' lo' hi') => some (.spacetime vmax w0 w1 b' lo' hi' inner)
     | _ => none
   | _, _ => none
+
+/-- `CompoundStateSpace::setSubspaceWeight(idx, w)` on the node at `path`: `if (weight < 0.0) throw` (the space is left as
+it is), `if (componentCount_ > index) weights_[index] = weight; else throw`.  A SpaceTimeStateSpace is itself a compound
+of two components (its constructor's `lock()` only blocks `addSubspace`): path `[]` changes `weights_[0]` / `weights_[1]`,
+which its own `distance` uses. -/
+partial def setWeightX (idx : Nat) (w : Float) : List Nat → SpaceX Float → Option (SpaceX Float)
+  | path, sx =>
+    if w < 0.0 then none else
+    match path, sx with
+    | [], .spacetime vmax w0 w1 b lo hi inner =>
+      match idx with
+      | 0 => some (.spacetime vmax w w1 b lo hi inner)
+      | 1 => some (.spacetime vmax w0 w b lo hi inner)
+      | _ => none
+    | 0 :: p, .cforest s => (setWeightX idx w p s).map .cforest
+    | p, s => modAtX (setWeightF idx w) p s
 
 /-- `k i1 … ik rest` -/
 def pPath : P (List Nat)
@@ -303,7 +321,7 @@ def step (st : St) (ts : List String) : St × String :=
           | some (idx, r) =>
             match pFloat r with
             | some (w, []) =>
-              match modAtX (setWeightF idx w) path sx with
+              match setWeightX idx w path sx with
               | some sx' => (⟨some sx', none⟩, "ok")
               | none => (st, "bad-op")
             | _ => (st, "bad-op")
